@@ -1,6 +1,63 @@
 (* SignProofs.v — C19: the sign / negation / identity helpers agree with the integer value. *)
-From BigNum Require Import Base BaseLemmas AddSub AddSubProofs Sign SpecSign.
+From BigNum Require Import Base BaseLemmas SrcLit SrcLitLemmas AddSub AddSubProofs Sign SpecSign.
 Open Scope Z_scope.
+
+(** ** the source-extracted parameters the proofs are about *)
+Definition tobu_std : tobu_arms := {| tb_plus := TbData; tb_nosign := TbZero; tb_minus := TbNone |}.
+(** [abs_sub]'s test may be `<=` (as it stands) or `<`: for equal operands `self - other` is the
+    same zero, so either operator computes the specified function. *)
+Definition sign_std (c : cmpop) : sign_params := {|
+  sgp_abs_conv := Minus; sgp_abs_sub_cmp := c;
+  sgp_signum_plus := 1; sgp_signum_minus := -1; sgp_signum_nosign := 0;
+  sgp_pos_eq := true; sgp_pos_sign := Plus; sgp_neg_eq := true; sgp_neg_sign := Minus;
+  sgp_zero_eq := true; sgp_zero_sign := NoSign;
+  sgp_cmp_ne := true; sgp_cmp_lit := Eq; sgp_cmp_nosign := Eq;
+  sgp_cmp_plus_fwd := true; sgp_cmp_minus_fwd := false;
+  sgp_from_biguint_shape := true;
+  sgp_tobu := tobu_std; sgp_tobu_trait := tobu_std;
+  sgp_try_eq := true; sgp_try_sign := Minus;
+  sgp_from_u_neg := false; sgp_from_u_sign := Plus |}.
+
+Definition tb_arm_eqb (a b : tb_arm) : bool :=
+  match a, b with TbData, TbData | TbZero, TbZero | TbNone, TbNone => true | _, _ => false end.
+Definition tobu_ok (a : tobu_arms) : bool :=
+  tb_arm_eqb (tb_plus a) TbData && tb_arm_eqb (tb_nosign a) TbZero && tb_arm_eqb (tb_minus a) TbNone.
+Definition sign_ok (p : sign_params) : bool :=
+  sign_eqb (sgp_abs_conv p) Minus
+  && (cmpop_eqb (sgp_abs_sub_cmp p) Cle || cmpop_eqb (sgp_abs_sub_cmp p) Clt)
+  && (sgp_signum_plus p =? 1) && (sgp_signum_minus p =? -1) && (sgp_signum_nosign p =? 0)
+  && Bool.eqb (sgp_pos_eq p) true && sign_eqb (sgp_pos_sign p) Plus
+  && Bool.eqb (sgp_neg_eq p) true && sign_eqb (sgp_neg_sign p) Minus
+  && Bool.eqb (sgp_zero_eq p) true && sign_eqb (sgp_zero_sign p) NoSign
+  && Bool.eqb (sgp_cmp_ne p) true && comparison_eqb (sgp_cmp_lit p) Eq && comparison_eqb (sgp_cmp_nosign p) Eq
+  && Bool.eqb (sgp_cmp_plus_fwd p) true && Bool.eqb (sgp_cmp_minus_fwd p) false
+  && Bool.eqb (sgp_from_biguint_shape p) true
+  && tobu_ok (sgp_tobu p) && tobu_ok (sgp_tobu_trait p)
+  && Bool.eqb (sgp_try_eq p) true && sign_eqb (sgp_try_sign p) Minus
+  && Bool.eqb (sgp_from_u_neg p) false && sign_eqb (sgp_from_u_sign p) Plus.
+
+Lemma tobu_ok_inv a : tobu_ok a = true -> a = tobu_std.
+Proof.
+  destruct a as [x y z]. unfold tobu_ok, tobu_std. cbn [tb_plus tb_nosign tb_minus].
+  destruct x, y, z; try discriminate; reflexivity.
+Qed.
+(** every field but [abs_sub]'s operator is pinned *)
+Lemma sign_ok_inv p : sign_ok p = true -> exists c, (c = Cle \/ c = Clt) /\ p = sign_std c.
+Proof.
+  destruct p as [ac asc]. unfold sign_ok, sign_std. cbn -[Z.eqb tobu_ok]. intros H.
+  rewrite !andb_true_iff in H. repeat match goal with H : _ /\ _ |- _ => destruct H end.
+  repeat match goal with H : tobu_ok _ = true |- _ => apply tobu_ok_inv in H end.
+  match goal with H : _ || _ = true |- _ => apply orb_true_iff in H; rename H into Hc end.
+  exists asc. split; [destruct Hc as [Hc|Hc]; apply cmpop_eqb_true in Hc; auto|].
+  clear Hc. pin_fields_in H. subst. reflexivity.
+Qed.
+Ltac sg_std p H := apply sign_ok_inv in H; destruct H as (?c & ?Hc & ->).
+Ltac sg_red :=
+  cbn [sign_std tobu_std sgp_abs_conv sgp_abs_sub_cmp sgp_signum_plus sgp_signum_minus sgp_signum_nosign
+       sgp_pos_eq sgp_pos_sign sgp_neg_eq sgp_neg_sign sgp_zero_eq sgp_zero_sign sgp_cmp_ne sgp_cmp_lit
+       sgp_cmp_nosign sgp_cmp_plus_fwd sgp_cmp_minus_fwd sgp_from_biguint_shape sgp_tobu sgp_tobu_trait
+       sgp_try_eq sgp_try_sign sgp_from_u_neg sgp_from_u_sign tb_plus tb_nosign tb_minus
+       sign_test blit cmp_ord cmp_dir] in *.
 
 (** ** small facts *)
 Lemma enc_1 : enc 1 = [1]. Proof. reflexivity. Qed.
@@ -45,10 +102,10 @@ Qed.
 
 Lemma bigint_eta x : mkint (sg x) (mag x) = x. Proof. destruct x; reflexivity. Qed.
 
-Lemma ifrom_u_spec m : canon m -> ifrom_u m = ienc (val m).
+Lemma ifrom_u_spec p m : sign_ok p = true -> canon m -> ifrom_u p m = ienc (val m).
 Proof.
-  intros Hm. pose proof (from_biguint_ienc Plus m Hm) as E. cbn [sign_z] in E.
-  rewrite Z.mul_1_l in E. rewrite <- E. unfold ifrom_u, from_biguint.
+  intros Hok; sg_std p Hok. intros Hm. pose proof (from_biguint_ienc Plus m Hm) as E. cbn [sign_z] in E.
+  rewrite Z.mul_1_l in E. rewrite <- E. unfold ifrom_u, from_biguint. sg_red.
   destruct m; reflexivity.
 Qed.
 
@@ -61,34 +118,35 @@ Proof.
 Qed.
 
 (** ** abs, signum, sign queries *)
-Theorem iabs_spec x : icanon x -> iabs x = ienc (spec_abs (ival x)).
+Theorem iabs_spec p x : sign_ok p = true -> icanon x -> iabs p x = ienc (spec_abs (ival x)).
 Proof.
-  intros Hx. unfold iabs, spec_abs.
-  destruct (icanon_cases x Hx) as [(S & M & V)|[(S & P & V)|(S & P & V)]]; rewrite S, V.
+  intros Hok. pose proof Hok as Hok'. sg_std p Hok. rename Hok' into Hok.
+  intros Hx. unfold iabs, spec_abs. sg_red.
+  destruct (icanon_cases x Hx) as [(S & M & V)|[(S & P & V)|(S & P & V)]]; rewrite S, V; cbn [sign_eqb].
   - rewrite <- V. cbn [Z.abs]. rewrite Z.abs_eq by lia. symmetry. apply ienc_of_icanon; auto.
   - rewrite Z.abs_eq by lia. rewrite <- V. symmetry. apply ienc_of_icanon; auto.
   - rewrite Z.abs_neq by lia. rewrite Z.opp_involutive. apply ifrom_u_spec, icanon_mag; auto.
 Qed.
 
-Theorem isignum_spec x : icanon x -> isignum x = ienc (spec_signum (ival x)).
+Theorem isignum_spec p x : sign_ok p = true -> icanon x -> isignum p x = ienc (spec_signum (ival x)).
 Proof.
-  intros Hx. unfold isignum, spec_signum.
+  intros Hok; sg_std p Hok. intros Hx. unfold isignum, spec_signum. sg_red.
   destruct (icanon_cases x Hx) as [(S & M & V)|[(S & P & V)|(S & P & V)]]; rewrite S, V.
   - reflexivity.
   - rewrite Z.sgn_pos by lia. reflexivity.
   - rewrite Z.sgn_neg by lia. reflexivity.
 Qed.
 
-Theorem is_positive_spec x : icanon x -> is_positive x = spec_is_positive (ival x).
+Theorem is_positive_spec p x : sign_ok p = true -> icanon x -> is_positive p x = spec_is_positive (ival x).
 Proof.
-  intros Hx. unfold is_positive, spec_is_positive.
+  intros Hok; sg_std p Hok. intros Hx. unfold is_positive, spec_is_positive. sg_red.
   destruct (icanon_cases x Hx) as [(S & M & V)|[(S & P & V)|(S & P & V)]]; rewrite S, V; cbn [sign_eqb];
     symmetry; [apply Z.ltb_ge|apply Z.ltb_lt|apply Z.ltb_ge]; lia.
 Qed.
 
-Theorem is_negative_spec x : icanon x -> is_negative x = spec_is_negative (ival x).
+Theorem is_negative_spec p x : sign_ok p = true -> icanon x -> is_negative p x = spec_is_negative (ival x).
 Proof.
-  intros Hx. unfold is_negative, spec_is_negative.
+  intros Hok; sg_std p Hok. intros Hx. unfold is_negative, spec_is_negative. sg_red.
   destruct (icanon_cases x Hx) as [(S & M & V)|[(S & P & V)|(S & P & V)]]; rewrite S, V; cbn [sign_eqb];
     symmetry; [apply Z.ltb_ge|apply Z.ltb_ge|apply Z.ltb_lt]; lia.
 Qed.
@@ -112,9 +170,10 @@ Proof.
   - destruct (mag x); [cbn in P; lia|reflexivity].
 Qed.
 
-Theorem icmp_spec x y : icanon x -> icanon y -> icmp x y = spec_icmp (ival x) (ival y).
+Theorem icmp_spec p x y : sign_ok p = true -> icanon x -> icanon y ->
+  icmp p x y = spec_icmp (ival x) (ival y).
 Proof.
-  intros Hx Hy. unfold icmp, spec_icmp.
+  intros Hok; sg_std p Hok. intros Hx Hy. unfold icmp, spec_icmp. sg_red.
   rewrite !sign_consistent_canon by auto. cbn [assert_ bind].
   pose proof (icanon_mag x Hx) as Cx. pose proof (icanon_mag y Hy) as Cy.
   destruct (icanon_cases x Hx) as [(S & M & V)|[(S & P & V)|(S & P & V)]];
@@ -122,21 +181,27 @@ Proof.
     rewrite S, S', V, V'; unfold sign_cmp; cbn [sign_z];
     change (0 ?= 0) with Eq; change (1 ?= 1) with Eq; change (-1 ?= -1) with Eq;
     change (0 ?= 1) with Lt; change (-1 ?= 0) with Lt; change (-1 ?= 1) with Lt;
-    change (1 ?= 0) with Gt; change (0 ?= -1) with Gt; change (1 ?= -1) with Gt; cbv iota;
+    change (1 ?= 0) with Gt; change (0 ?= -1) with Gt; change (1 ?= -1) with Gt;
+    cbn [comparison_eqb negb]; cbv iota;
     try rewrite cmp_slice_spec by auto; f_equal; symmetry;
     try (apply Z.compare_lt_iff; lia); try (apply Z.compare_gt_iff; lia);
     try reflexivity.
   apply Z.compare_opp.
 Qed.
 
-Theorem abs_sub_spec p x y : addsub_ok p = true -> icanon x -> icanon y ->
-  abs_sub p x y = omap ienc (spec_abs_sub (ival x) (ival y)).
+Theorem abs_sub_spec sp p x y : sign_ok sp = true -> addsub_ok p = true -> icanon x -> icanon y ->
+  abs_sub sp p x y = omap ienc (spec_abs_sub (ival x) (ival y)).
 Proof.
-  intros Hp Hx Hy. unfold abs_sub, spec_abs_sub, omap. rewrite icmp_spec by auto.
+  intros Hok Hp Hx Hy. unfold abs_sub, spec_abs_sub, omap. rewrite icmp_spec by auto.
   unfold spec_icmp. cbn [bind].
-  destruct (Z.compare_spec (ival x) (ival y)) as [E|E|E].
+  destruct (sign_ok_inv sp Hok) as (c & Hc & ->). cbn [sign_std sgp_abs_sub_cmp].
+  destruct (Z.compare_spec (ival x) (ival y)) as [E|E|E]; destruct Hc as [-> | ->]; cbn [cmp_ord is_le is_lt].
+  - (* equal, `<=` *) rewrite Z.max_r by lia. reflexivity.
+  - (* equal, `<`: self - other is the same zero *)
+    rewrite Z.max_r by lia. rewrite isub_spec by auto. cbn [bind]. do 2 f_equal. lia.
   - rewrite Z.max_r by lia. reflexivity.
   - rewrite Z.max_r by lia. reflexivity.
+  - rewrite Z.max_l by lia. apply isub_spec; auto.
   - rewrite Z.max_l by lia. apply isub_spec; auto.
 Qed.
 
@@ -165,10 +230,10 @@ Theorem from_biguint_zero_mag s : from_biguint s [] = izero.
 Proof. destruct s; reflexivity. Qed.
 
 (** ** conversions *)
-Theorem to_biguint_spec x : icanon x ->
-  to_biguint x = option_map enc (spec_to_biguint (ival x)).
+Lemma tobu_eval_spec x : icanon x ->
+  tobu_eval tobu_std x = option_map enc (spec_to_biguint (ival x)).
 Proof.
-  intros Hx. unfold to_biguint, spec_to_biguint.
+  intros Hx. unfold tobu_eval, spec_to_biguint. sg_red.
   destruct (icanon_cases x Hx) as [(S & M & V)|[(S & P & V)|(S & P & V)]]; rewrite S, V.
   - reflexivity.
   - replace (val (mag x) <? 0) with false by (symmetry; apply Z.ltb_ge; lia).
@@ -176,16 +241,24 @@ Proof.
   - replace (- val (mag x) <? 0) with true by (symmetry; apply Z.ltb_lt; lia). reflexivity.
 Qed.
 
-Theorem try_into_biguint_spec x : icanon x ->
-  try_into_biguint x = option_map enc (spec_to_biguint (ival x)).
+Theorem to_biguint_spec p x : sign_ok p = true -> icanon x ->
+  to_biguint p x = option_map enc (spec_to_biguint (ival x)).
+Proof. intros Hok; sg_std p Hok. apply tobu_eval_spec. Qed.
+Theorem to_biguint_trait_spec p x : sign_ok p = true -> icanon x ->
+  to_biguint_trait p x = option_map enc (spec_to_biguint (ival x)).
+Proof. intros Hok; sg_std p Hok. apply tobu_eval_spec. Qed.
+
+Theorem try_into_biguint_spec p x : sign_ok p = true -> icanon x ->
+  try_into_biguint p x = option_map enc (spec_to_biguint (ival x)).
 Proof.
-  intros Hx. rewrite <- to_biguint_spec by auto. unfold try_into_biguint, to_biguint.
+  intros Hok; sg_std p Hok.
+  intros Hx. rewrite <- tobu_eval_spec by auto. unfold try_into_biguint, tobu_eval. sg_red.
   destruct (icanon_cases x Hx) as [(S & M & V)|[(S & P & V)|(S & P & V)]]; rewrite S; cbn [sign_eqb];
     try reflexivity. rewrite M. reflexivity.
 Qed.
 
-Theorem u_to_bigint_spec m : canon m -> u_to_bigint m = Some (ienc (val m)).
-Proof. intros Hm. unfold u_to_bigint. rewrite ifrom_u_spec by auto. reflexivity. Qed.
+Theorem u_to_bigint_spec p m : sign_ok p = true -> canon m -> u_to_bigint p m = Some (ienc (val m)).
+Proof. intros Hok Hm. unfold u_to_bigint. rewrite ifrom_u_spec by auto. reflexivity. Qed.
 Theorem i_to_bigint_spec x : icanon x -> i_to_bigint x = Some (ienc (ival x)).
 Proof. intros Hx. unfold i_to_bigint. rewrite ienc_of_icanon by auto. reflexivity. Qed.
 Theorem u_to_biguint_spec m : canon m -> u_to_biguint m = Some (enc (val m)).
@@ -201,9 +274,9 @@ Theorem uset_one_spec m : uset_one m = enc 1. Proof. reflexivity. Qed.
 Theorem iset_zero_spec x : iset_zero x = ienc 0. Proof. reflexivity. Qed.
 Theorem iset_one_spec x : iset_one x = ienc 1. Proof. reflexivity. Qed.
 
-Theorem iis_zero_spec x : icanon x -> iis_zero x = spec_is_zero (ival x).
+Theorem iis_zero_spec p x : sign_ok p = true -> icanon x -> iis_zero p x = spec_is_zero (ival x).
 Proof.
-  intros Hx. unfold iis_zero, spec_is_zero.
+  intros Hok; sg_std p Hok. intros Hx. unfold iis_zero, spec_is_zero. sg_red.
   destruct (icanon_cases x Hx) as [(S & M & V)|[(S & P & V)|(S & P & V)]]; rewrite S, V; cbn [sign_eqb];
     symmetry; [reflexivity|apply Z.eqb_neq; lia|apply Z.eqb_neq; lia].
 Qed.
